@@ -75,6 +75,11 @@ func newWorld(cfg config, seed int64) *world {
 func (w *world) opts() []nodeenrollment.Option {
 	o := []nodeenrollment.Option{nodeenrollment.WithMaximumServerLedActivationTokenLifetime(w.cfg.Life)}
 	if w.cfg.Wrapper {
+		// the server's option list also sets its certificate lifetime - a
+		// duration of the same type, and of no concern to tokens
+		o = append(o, nodeenrollment.WithCertificateLifetime(7*time.Minute))
+	}
+	if w.cfg.Wrapper {
 		o = append(o, nodeenrollment.WithStorageWrapper(w.sw))
 	}
 	return o
